@@ -6,7 +6,7 @@ import reccommon as R
 from engine import Op, set_mode
 
 PROP = "C14"
-LEAN_MODULES = ["IsoDT.Props.C14"]
+LEAN_MODULES = ["IsoDT.Props.C14", "IsoDT.Props.C14c", "IsoDT.Props.C14mm"]
 RULE = ("recurrences as in C12 x exact shift durations (either operand order, and subtraction); pairs differing in "
         "exactly one component, pairs spelling the same anchors and interval differently (other zone, other "
         "representation, other units); parser-producible recurrences for the text round trip; distinct by "
@@ -363,4 +363,6 @@ class Text(Op):
 
 
 def ops():
-    return [Shift(), Eq(), HashEq(), Text()]
+    import recmm
+    return [Shift(), Eq(), HashEq(), Text(),
+            recmm.RecMMOp(PROP, "mmvalue", ["mmrshift", "mmreq", "mmreq", "mmrhasheq"], 500)]
